@@ -286,6 +286,9 @@ class Surface(Numbered_MCNP_Object):
             self._old_periodic_surface.value = self.periodic_surface.number
             self._old_periodic_surface.is_negative = True
             self._tree.nodes["pointer"] = self._old_periodic_surface
+        else:
+            # neither a transform nor a periodic surface (anymore)
+            self._tree["pointer"].value = None
 
     def __lt__(self, other):
         return self.number < other.number
